@@ -1195,6 +1195,19 @@ func (e *SpecEnv) quant(kind string, args []*Node) *SVal {
 	}
 	b := e.fr.evalBool(body, n)
 	q := "(forall ((" + bvq + " Int)) " + sImp(guard, b) + ")"
+	if kind == "forall" && strings.HasPrefix(b, "(forall ((") {
+		// forall i. G ==> forall j. R   is written   forall i j. G ==> R : one quantifier with
+		// several variables is instantiated in one step, nested ones level by level
+		if parts := sexprArgs(b); len(parts) == 3 && parts[0] == "forall" {
+			inner := parts[2]
+			if ia := sexprArgs(inner); len(ia) == 3 && ia[0] == "=>" {
+				inner = sImp(sAnd(guard, ia[1]), ia[2])
+			} else {
+				inner = sImp(guard, inner)
+			}
+			q = "(forall ((" + bvq + " Int) " + strings.TrimPrefix(parts[1], "(") + " " + inner + ")"
+		}
+	}
 	if kind == "exists" {
 		q = "(exists ((" + bvq + " Int)) " + sAnd(guard, b) + ")"
 	}
@@ -1218,7 +1231,7 @@ func (e *SpecEnv) quant(kind string, args []*Node) *SVal {
 				// the goal: there the instance follows from the quantified conjunct anyway
 				insts = append(insts, "(hint "+sImp(g, bi)+")")
 			} else {
-				insts = append(insts, sAnd(g, bi))
+				insts = append(insts, "(hinte "+sAnd(g, bi)+")")
 			}
 		}
 		if len(insts) > 0 {
@@ -1270,11 +1283,24 @@ func (fr *Frame) loopIndexTerms() []string {
 					fr.x.idxConst[t] = c
 				}
 				out = append(out, c)
+				// ... and the index itself: at a back edge the phi stands for the latch value,
+				// and the element just processed is at that index
+				if !strings.Contains(v.Term, "(") {
+					out = append(out, v.Term)
+				} else {
+					c2, ok := fr.x.idxConst[v.Term]
+					if !ok {
+						c2 = fr.x.em.Fresh("idx", "Int")
+						fr.x.em.Raw("(assert (= " + c2 + " " + v.Term + "))")
+						fr.x.idxConst[v.Term] = c2
+					}
+					out = append(out, c2)
+				}
 			}
 		}
 	}
-	if len(out) > 2 {
-		out = out[len(out)-2:]
+	if len(out) > 4 {
+		out = out[len(out)-4:]
 	}
 	return out
 }
